@@ -3,7 +3,7 @@ LEVEL = "other"
 F = "harness/c06_process.c"
 NHQ, NHT = 4, 5
 def P(name, entry, desc, nh, tiers, canaries=1, to=900, defs_extra=(), **kw):
-    n = nh + 6
+    n = nh + 4
     uw = [f"{entry}.{k}:{max(n, 2 * n) + 2}" for k in range(10)] + [
         f"idx.0:{n + 1}", f"idx_pl.0:{n + 1}", f"ghosts_reset.0:{n + 1}", "ghosts_reset.1:%d" % 14, "memmove.0:%d" % ((nh + 4) * 8 + 2),
         f"send_anti_messages.0:{nh + 2}", f"send_anti_messages.1:{nh + 2}", f"silent_execution.0:{nh + 2}", f"silent_execution.1:{nh + 2}",
